@@ -121,7 +121,7 @@ class Run:
                  "-I" + os.path.join(VERIF, "harness")]
         if variant == "asan":
             cc = "clang"
-            flags += ["-fsanitize=address,undefined", "-fno-sanitize-recover=undefined", "-fno-omit-frame-pointer"]
+            flags += ["-fsanitize=address,undefined", "-fno-sanitize=alignment,nonnull-attribute,returns-nonnull-attribute", "-fno-sanitize-recover=undefined", "-fno-omit-frame-pointer"]
         elif variant == "tsan":
             cc = "clang"
             flags += ["-fsanitize=thread"]
@@ -147,7 +147,7 @@ class Run:
         tag = tag or (mname + "-" + os.path.splitext(os.path.basename(cfg))[0])
         meta = self.path("tlc", tag + "-%d" % (time.time_ns() % 10**9))
         os.makedirs(meta, exist_ok=True)
-        jopts = ["-XX:+UseParallelGC", "-Xmx" + heap, "-Xss16m", "-DTLA-Library=" + TLA_LIBRARY]
+        jopts = ["-XX:+UseParallelGC", "-Xmx" + heap, "-Xss16m", "-DTLA-Library=" + TLA_LIBRARY, "-Djava.io.tmpdir=" + meta]
         if deque:
             jopts.append("-Dtlc2.tool.queue.IStateQueue=StateDeque")
         cmd = ["java"] + jopts + ["-cp", TLA_JARS, "tlc2.TLC", "-metadir", meta, "-workers", str(workers),
